@@ -259,8 +259,8 @@ func (p *peer) Dial(addr string, protoFunc ...ProtoFunc) (Session, *Status) {
 				oldConn.Close()
 			}
 			sess.changeStatus(statusOk)
-			AnywayGo(sess.startReadAndHandle)
 			p.sessHub.set(sess)
+			AnywayGo(sess.startReadAndHandle)
 			Infof("redial ok (network:%s, addr:%s, id:%s)", p.network, addr, sess.ID())
 			return true
 		}
@@ -268,8 +268,10 @@ func (p *peer) Dial(addr string, protoFunc ...ProtoFunc) (Session, *Status) {
 
 	Infof("dial ok (network:%s, addr:%s, id:%s)", p.network, addr, sess.ID())
 	sess.changeStatus(statusOk)
-	AnywayGo(sess.startReadAndHandle)
+	// list the session before its reader runs: a reader that finds the connection
+	// already lost removes the session from the index
 	p.sessHub.set(sess)
+	AnywayGo(sess.startReadAndHandle)
 	return sess, nil
 }
 
@@ -298,8 +300,10 @@ func (p *peer) ServeConn(conn net.Conn, protoFunc ...ProtoFunc) (Session, *Statu
 	}
 	Infof("serve ok (network:%s, addr:%s, id:%s)", network, sess.RemoteAddr().String(), sess.ID())
 	sess.changeStatus(statusOk)
-	AnywayGo(sess.startReadAndHandle)
+	// list the session before its reader runs: a reader that finds the connection
+	// already lost removes the session from the index
 	p.sessHub.set(sess)
+	AnywayGo(sess.startReadAndHandle)
 	return sess, nil
 }
 
